@@ -313,6 +313,10 @@ def group(rep, model):
         ctx.facts[('ndim', ('param', 'sigs'))] = C(nd)
         o = E.make_object(ctx, model, GRP, SETTINGS)
         a0 = dict(E.attrs(ctx, o))
+        # an arbitrary earlier history: every attribute that is not a setting (results, the previous array, bookkeeping a method may keep) holds an unknown earlier value
+        for k_ in list(E.attrs(ctx, o)):
+            if k_ not in SETTINGS:
+                E.attrs(ctx, o)[k_] = ('atom', 'OLD_' + k_, 'any')
         ctx.trace.clear()
         ctx.raises.clear()
         args = {k: ('param', k) for k in f.params if k != 'self'}
@@ -323,6 +327,13 @@ def group(rep, model):
             rep.violation('ARG-NAME', f'group[{nd}-D]:callee', site, expected=f'exactly one call, to {callee}', found=f'{len(evs)} + {len(other)} other')
             continue
         e = evs[0]
+        history = sorted({x[1] for c_ in [e['guard']] + list(e.get('perm', ())) for x in T.walk(c_) if x[0] == 'atom' and x[1].startswith('OLD_')})
+        stale = sorted({x[1] for v in e['bound'].values() for x in T.walk(v) if x[0] == 'atom' and x[1].startswith('OLD_')})
+        if history or stale:
+            rep.violation('NO-STALE', f'group[{nd}-D]:fit', site, expected='the group analysis runs on every fit, whatever the object held before, with arguments built from the settings and the call arguments only',
+                          found=(f'the call depends on earlier state {history}' if history else '') + (f' arguments carry earlier state {stale}' if stale else ''))
+        else:
+            rep.ok('NO-STALE', f'group[{nd}-D]:fit', site, found='one call, independent of what the object held before')
         want_kw = ('dict', tuple(sorted({'center_extrema': a0['center_extrema'], 'burst_method': a0['burst_method'], 'burst_kwargs': a0['burst_kwargs'],
                                          'threshold_kwargs': a0['thresholds'], 'find_extrema_kwargs': a0['find_extrema_kwargs']}.items())))
         want = {'sigs': ('param', 'sigs'), 'fs': ('param', 'fs'), 'f_range': ('param', 'f_range'), 'compute_features_kwargs': want_kw,
